@@ -13,6 +13,7 @@ from vsc.model.constraint_block_model import ConstraintBlockModel
 from vsc.model.constraint_expr_model import ConstraintExprModel
 from vsc.model.constraint_foreach_model import ConstraintForeachModel
 from vsc.model.constraint_if_else_model import ConstraintIfElseModel
+from vsc.model.constraint_implies_model import ConstraintImpliesModel
 from vsc.model.constraint_inline_scope_model import ConstraintInlineScopeModel
 from vsc.model.constraint_scope_model import ConstraintScopeModel
 from vsc.model.expr_array_subscript_model import ExprArraySubscriptModel
@@ -78,8 +79,19 @@ class ArrayConstraintBuilder(ConstraintOverrideVisitor):
 
             for i in range(len(fm.field_l)):
                 f.index.set_val(i)
-                for c in f.constraint_l:
-                    c.accept(self)
+                if fm.size_is_solved():
+                    # The list holds as many elements as it can end up 
+                    # with: the body applies to element 'i' only if the 
+                    # solved size includes it
+                    guard = ConstraintImpliesModel(fm.in_list_expr(i))
+                    with ConstraintCollector(self, guard):
+                        for c in f.constraint_l:
+                            c.accept(self)
+                    if len(guard.constraint_l) > 0:
+                        self.constraints.append(guard)
+                else:
+                    for c in f.constraint_l:
+                        c.accept(self)
 
         if len(self.foreach_scope_s) > 1:
             # Nested foreach: the expansion belongs to the construct that 
